@@ -15,9 +15,7 @@ def storeOfSpec (spec : String) : Option Store :=
       | [n] => (natOf n, [])
       | [n, a] => (natOf n, attList a)
       | _ => (0, [])
-    let s0 := (Store.ofLabels ((List.range n).map (· + 1))).withRowsByLen
-    some (atts.foldl (fun s p => match s.newAttackByIds (p.1 - 1) (p.2 - 1) with
-      | .ok s' => s' | .err s' => s' | .panic => s) s0)
+    some (Store.ofIccma n (atts.map (fun p => (p.1 - 1, p.2 - 1))))
   else none
 
 def solverKindOf (s : String) : Option SolverKind :=
